@@ -160,19 +160,19 @@ type world struct {
 	client int  // 0 in the enumerated mode
 	pool   bool // pool mode: the driver log is shared with other clients
 	// pool mode only
-	pauses            []pause // pauses[k]: before the action "after k statements"
-	ignoreCancel      bool    // endAsyncCancel: the body ignores statements refused because of the cancelled context
-	cancelFired       bool    // set by the canceller task right before it cancels
-	cancelledAtReturn bool
-	ret               error
-	escaped           any
-	didEscape         bool
-	kinds  []int  // statement kinds, 1-based
-	useCtx []bool // statement uses the *Ctx method with the body's context
-	wrap   bool   // body wraps a statement error before returning it
+	pauses             []pause // pauses[k]: before the action "after k statements"
+	ignoreCancel       bool    // endAsyncCancel: the body ignores statements refused because of the cancelled context
+	cancelFired        bool    // set by the canceller task right before it cancels
+	cancelledAtReturn  bool
+	ret                error
+	escaped            any
+	didEscape          bool
+	kinds              []int  // statement kinds, 1-based
+	useCtx             []bool // statement uses the *Ctx method with the body's context
+	wrap               bool   // body wraps a statement error before returning it
 	errKind, panicKind int
-	cancel context.CancelFunc
-	bctx   context.Context
+	cancel             context.CancelFunc
+	bctx               context.Context
 
 	bodyRuns    int
 	outcome     string // "nil" | "err" | "panic" of the last body execution
@@ -364,6 +364,10 @@ func body(r *simrt.Run, tier string) {
 	}
 	tp, sampled := drawPlan(r, tier)
 	w := &world{r: r, tp: tp, db: newSimDB(tp.name())}
+	w.db.errKind = []int{0, 0, 1, 2, 3}[t.Intn(5)]
+	if w.db.errKind != 0 {
+		r.Probe(fmt.Sprintf("injected-error-identity-%d", w.db.errKind))
+	}
 	db := w.db
 
 	// secondary choices (not part of the enumerated tuple)
@@ -558,9 +562,12 @@ func (w *world) check(log []dbEvent, ret error, didEscape bool, escaped any, inU
 			who, apiNames[w.tp.api], w.tp.name(), logString(w.db.snapshot()), w.bodyRuns, w.outcome, ret)
 	}
 
-	// "begins one transaction"
-	if begins > 1 {
-		r.Fail("begin-count", "%d transactions begun by one Transact call. %s", begins, trail())
+	// "begins one transaction": at most one transaction is opened; database/sql itself retries a
+	// Begin that failed with a bad-connection error on other connections (up to three attempts),
+	// which opens nothing
+	badConn := w.db.errKind == 1 || w.db.errKind == 3
+	if okBegins > 1 || (begins > 1 && !badConn) || begins > 3 {
+		r.Fail("begin-count", "%d transactions begun (%d begin attempts) by one Transact call. %s", okBegins, begins, trail())
 		return
 	}
 	// "the body is not run if the transaction cannot begin"
